@@ -126,10 +126,16 @@ def mul_cases(cv, rng, quick):
     dm = (1 << cv.dgb) - 1
     digs = [0, 1, 2, 3, dm, dm - 1, 1 << (cv.dgb - 1), dm // 3, rng.getrandbits(cv.dgb), rng.getrandbits(cv.dgb)]
     frb = gen_ep2.frb_corners(cv, rng, per=1, variants=not quick)
+    # one-digit scalars of both signs (the routines have shortcuts for them), output distinct from and aliased to the input
+    D = 1 << cv.dgb
+    one_digit = [2, -2, 3, -3, 5, -5, D - 1, -(D - 1), (D >> 1) + 1, -((D >> 1) + 1), D, -D, D + 1, -(D + 1)]
     for g, pt, out in (("g1", p1, g1), ("g2", p2, g2)):
         for op in ("mul", "mul_sec", "mul_any"):
             for k in ks() + (frb if g == "g2" and op != "mul_any" else []):
                 out.append("%s_%s %s %d %s %s" % (g, op, c, rng.choice([0, 0, 1]), pt(), hx(k)))
+            for k in (one_digit if op == "mul" or not quick else rng.sample(one_digit, 4)):
+                for al in ((0, 1) if op == "mul" else (rng.choice([0, 1]),)):
+                    out.append("%s_%s %s %d %s %s" % (g, op, c, al, pt(), hx(k)))
             out.append("%s_%s %s 0 inf %s" % (g, op, c, hx(rng.choice(corners))))
         for k in ks():
             out.append("%s_mul_gen %s 0 %s" % (g, c, hx(k)))
@@ -165,6 +171,8 @@ def mul_cases(cv, rng, quick):
     for op in ("gt_exp", "gt_exp_sec"):
         for k in rng.sample(S, min(pg, len(S))) + (frb if op == "gt_exp" or not quick else frb[:4]):
             gt.append("%s %s %d %s %s" % (op, c, rng.choice([0, 0, 1]), el(), hx(k)))
+        for k in (one_digit[:8] if op == "gt_exp" or not quick else one_digit[:2]):
+            gt.append("%s %s %d %s %s" % (op, c, 0 if k > 0 else rng.choice([0, 1]), el(), hx(k)))
         gt.append("%s %s 0 one %s" % (op, c, hx(rng.choice(S))))
     for k in rng.sample(S, min(pg, len(S))) + frb[:(6 if quick else len(frb))]:
         gt.append("gt_exp_gen %s 0 %s" % (c, hx(k)))
